@@ -78,3 +78,7 @@ Fixpoint trace (steps : nat) (orc : nat -> bool) (i : nat) (g : cfg) (n : nat) :
       | OTst e t f => let b := orc i in ITest e b :: trace s orc (S i) g (if b then t else f)
       end
   end.
+
+(* a cycle of silent moves (Jump ops only): excluded by the properties *)
+Definition silent_cycle (g : cfg) : bool :=
+  existsb (fun n => match observe g n with OFuel => true | _ => false end) (seq 0 (length g)).
